@@ -97,6 +97,24 @@ Definition parse_int_str (s : str) : option Z :=
 (* floats: fixed point, 10^-6 units (DESIGN.md section 3) *)
 Inductive fl := FFin (micro : Z) | FInf (neg : bool) | FNan.
 
+(* Python's float(z) for an int z: the nearest binary double (53-bit significand), ties to even;
+   None = OverflowError ("int too large to convert to float"). The result is an integer, so it is exact in
+   the 10^-6 fixed-point representation. *)
+Definition round_double_abs (a : Z) : Z :=
+  let n := Z.log2 a + 1 in                      (* bit length, a > 0 *)
+  if n <=? 53 then a
+  else let sh := n - 53 in
+       let q := a / 2 ^ sh in
+       let r := a mod 2 ^ sh in
+       let half := 2 ^ (sh - 1) in
+       (if (half <? r) || ((r =? half) && Z.odd q) then q + 1 else q) * 2 ^ sh.
+
+Definition float_of_int (z : Z) : option fl :=
+  if z =? 0 then Some (FFin 0)
+  else let r := round_double_abs (Z.abs z) in
+       if 2 ^ 1024 <=? r then None
+       else Some (FFin ((if z <? 0 then - r else r) * 1000000)).
+
 Definition pow10 (n : Z) : Z := 10 ^ n.
 
 (* float(s) for a str s. Decimals whose value is not a multiple of 10^-6 are outside the modelled
